@@ -1,17 +1,120 @@
 (* Properties_C03.v — C03: JSON encoding of token streams is lossless and
-   always valid JSON.  Statements are added as the proofs land. *)
-From Coq Require Import List ZArith.
-Require Import Tok JsonEnc JsonDec.
+   always valid JSON.  Statements only; proofs in JsonStrProof.v,
+   JsonNumProof.v, JsonEncProof.v, JsonDecProof.v.
+
+   Floats: strconv's shortest-digit generation is not modelled.  The layout
+   the encoder puts around those digits is part of the model; that the
+   resulting text reads back as the same number is the hypothesis [Hflt] of
+   the theorems below (per float, checked by the harness on every float a run
+   uses).  The float-free instance is unconditional. *)
+From Coq Require Import List ZArith Lia.
+Require Import Tok CborSpec Utf8 CborDec CborParse JsonEnc JsonDec JsonParse
+               JsonStrProof JsonNumProof JsonEncProof JsonDecProof.
 Import ListNotations.
 Open Scope Z_scope.
 
-(* sanity, evaluated by the kernel: control characters, quotes, invalid UTF-8
-   and U+2028 are escaped; the result reads back as the coerced string *)
+(* Every string survives: reading the escaped text back gives the string with
+   each byte that is not part of well-formed UTF-8 replaced by U+FFFD, and a
+   valid UTF-8 string is unchanged. *)
+Theorem C03_string_roundtrip : forall s rest, bytes_ok s ->
+  dec_string (escaped_body s ++ [34] ++ rest) = inl (coerce_utf8 s, rest).
+Proof. exact dec_string_emit_string. Qed.
+Print Assumptions C03_string_roundtrip.
+Theorem C03_valid_utf8_unchanged : forall s, valid_utf8 s = true -> coerce_utf8 s = s.
+Proof. exact coerce_valid_utf8. Qed.
+
+(* Never emitted raw: control characters, an unescaped quote, invalid UTF-8. *)
+Theorem C03_escaped_text_clean : forall s, bytes_ok s ->
+  Forall (fun b => 32 <= b < 256) (escaped_body s) /\
+  no_bare_quote (escaped_body s) = true /\ valid_utf8 (escaped_body s) = true.
+Proof. exact escaped_body_clean_weak. Qed.
+Print Assumptions C03_escaped_text_clean.
+
+(* All int64 / uint64 values read back exactly (an unsigned value that fits int64 comes back signed). *)
+Theorem C03_int_roundtrip : forall i rest, min_int64 <= i <= max_int64 -> terminator_ok rest ->
+  match print_int i with
+  | first :: more => dec_number first (more ++ rest) = inl (Int i, rest)
+  | [] => False
+  end.
+Proof. exact dec_number_print_int. Qed.
+Theorem C03_uint_roundtrip : forall u rest, 0 <= u <= max_uint64 -> terminator_ok rest ->
+  match print_uint u with
+  | first :: more => dec_number first (more ++ rest) = inl ((if u <=? max_int64 then Int u else Uint u), rest)
+  | [] => False
+  end.
+Proof. exact dec_number_print_uint. Qed.
+Print Assumptions C03_uint_roundtrip.
+
+(* The whole document: accepted, done exactly on the last token, and the
+   output is read by the STRICT RFC 8259 reading as the same value, for every
+   whitespace option. *)
+Definition float_hyp (sh : Z -> list Z * Z) (float_ok : Z -> Prop) (fnorm : Z -> tval) : Prop :=
+  forall b rest, float_ok b -> terminator_ok rest ->
+    exists first more, emit_float sh b = Some [first :: more] /\
+      (first = 45 \/ is_digit first = true) /\
+      is_leaf (fnorm b) = true /\
+      dec_number first (more ++ rest) = inl (leaf_tok (fnorm b), rest) /\
+      match fnorm b with VInt _ | VUint _ | VFlt _ => True | _ => False end.
+
+Theorem C03_output_is_valid_json_with_same_value :
+  forall sh (float_ok : Z -> Prop) fnorm, float_hyp sh float_ok fnorm ->
+  forall o n rest, ws_opts o -> json_ok float_ok n -> terminator_ok rest ->
+    exists chunks,
+      jenc_tokens sh o (flatten n) = JFinished chunks (length (flatten n)) /\
+      exists fuel, jpvalue fuel false (concat chunks ++ rest) = POk (jnorm fnorm n) (top_tail o n ++ rest).
+Proof. intros sh fo fn H. exact (json_encode_parses sh fo fn H). Qed.
+Print Assumptions C03_output_is_valid_json_with_same_value.
+
+(* ... hence refmt's own decoder yields the same token sequence up to JSON's number typing *)
+Theorem C03_decoder_rereads_output :
+  forall sh (float_ok : Z -> Prop) fnorm, float_hyp sh float_ok fnorm ->
+  forall o n rest, ws_opts o -> json_ok float_ok n -> terminator_ok rest ->
+    exists chunks,
+      jenc_tokens sh o (flatten n) = JFinished chunks (length (flatten n)) /\
+      jdec_run (concat chunks ++ rest) = JDOk (flatten (jnorm fnorm n)) (top_tail o n ++ rest).
+Proof.
+  intros sh fo fn H o n rest Ho Hn Hr.
+  destruct (json_encode_parses sh fo fn H o n rest Ho Hn Hr) as [chunks [Hrun [fuel Hp]]].
+  exists chunks. split; [exact Hrun|].
+  apply (jdec_complete fuel). apply strict_implies_lenient. exact Hp.
+Qed.
+Print Assumptions C03_decoder_rereads_output.
+
+(* pretty-printed output differs from compact output only in insignificant
+   whitespace: both are read as the same value *)
+Theorem C03_pretty_same_value :
+  forall sh (float_ok : Z -> Prop) fnorm, float_hyp sh float_ok fnorm ->
+  forall o n, ws_opts o -> json_ok float_ok n ->
+    exists c1 c2 f1 f2,
+      jenc_tokens sh o (flatten n) = JFinished c1 (length (flatten n)) /\
+      jenc_tokens sh (JOpts None []) (flatten n) = JFinished c2 (length (flatten n)) /\
+      jpvalue f1 false (concat c1) = POk (jnorm fnorm n) (top_tail o n) /\
+      jpvalue f2 false (concat c2) = POk (jnorm fnorm n) [].
+Proof. intros sh fo fn H. exact (json_pretty_same_value sh fo fn H). Qed.
+
+(* The float-free instance needs no hypothesis at all. *)
+Theorem C03_float_free_unconditional : forall sh o n rest,
+  ws_opts o -> json_ok (fun _ => False) n -> terminator_ok rest ->
+  exists chunks,
+    jenc_tokens sh o (flatten n) = JFinished chunks (length (flatten n)) /\
+    jdec_run (concat chunks ++ rest) = JDOk (flatten (jnorm (fun b => VFlt b) n)) (top_tail o n ++ rest).
+Proof.
+  intros sh o n rest. apply C03_decoder_rereads_output.
+  intros b r Hf. contradiction.
+Qed.
+Print Assumptions C03_float_free_unconditional.
+
+(* sanity, evaluated by the kernel *)
 Example C03_escape_example :
   concat (emit_string [34; 10; 1; 255; 226; 128; 168; 97]) =
   [34; 92;34; 92;110; 92;117;48;48;48;49; 92;117;102;102;102;100; 92;117;50;48;50;56; 97; 34].
 Proof. vm_compute. reflexivity. Qed.
-Example C03_unescape_example :
-  dec_string (tl (concat (emit_string [34; 10; 1; 255; 226; 128; 168; 97])) ++ [7]) =
-  inl ([34; 10; 1; 239; 191; 189; 226; 128; 168; 97], [7]).
-Proof. vm_compute. reflexivity. Qed.
+Example C03_document_example :
+  let o := JOpts (Some [10]) [32; 32] in
+  let n := Node None (VMap 1 [(Node None (VStr [107]), Node (Some 5) (VArr 2 [Node None (VInt (-3)); Node None VNull]))]) in
+  match jenc_tokens (fun _ => ([], 0)) o (flatten n) with
+  | JFinished c used => used = 7%nat /\
+      jdec_run (concat c) = JDOk (flatten (jnorm (fun b => VFlt b) n)) [10]
+  | _ => False
+  end.
+Proof. vm_compute. split; reflexivity. Qed.
